@@ -191,6 +191,8 @@ IdentVocab == {"Patient", "Observation", "active", "name", "given", "family", "g
 (* delimited identifiers: the backticks are part of the token *)
 DelimVocab == {"`active`", "`name`", "`Patient`", "`given`"}
 NumberVocab == {"0", "1", "2", "3", "4", "5", "6", "7", "8", "9", "10", "12", "42"}
+(* number tokens whose value the small evaluator of C11 does not give: only consistency of the renderings is demanded *)
+WideNumberVocab == {"2147483647", "2147483648", "99999999999", "0.5"}
 StringVocab == {"'a'", "'b'", "'c'", "'ab'", "'male'"}
 Dollars    == {"$this", "$index", "$total"}
 Puncts     == {"(", ")", "[", "]", "{", "}", ".", ",", "%", "+", "-", "*", "/", "&", "|",
@@ -200,7 +202,7 @@ TokClass(tok) ==
   CASE tok \in Keywords    -> "word"
     [] tok \in IdentVocab  -> "word"
     [] tok \in DelimVocab  -> "delim"
-    [] tok \in NumberVocab -> "num"
+    [] tok \in NumberVocab \cup WideNumberVocab -> "num"
     [] tok \in StringVocab -> "str"
     [] tok \in Dollars     -> "dollar"
     [] tok \in Puncts      -> "punct"
